@@ -3,7 +3,7 @@
    concurrent submitters, any jobs, Release; [reachable W Q s] = s is reached from the initial state by SOME label sequence, so
    every theorem below is about all schedules). *)
 From Coq Require Import List Arith NArith Permutation.
-From TarsV Require Import Conc.Gpool Conc.GpoolProofs.
+From TarsV Require Import Conc.Gpool Conc.GpoolProofs Conc.GpoolLive Conc.GpoolFair.
 Import ListNotations.
 
 (* no job is handed to a worker twice; what has been handed over is exactly what occupies a worker or has finished *)
@@ -34,16 +34,63 @@ Proof. exact GpoolProofs.submit_only_when_room. Qed.
 Theorem C19_queue_bounded : forall W Q s, reachable W Q s -> length (jobq s) <= Q.
 Proof. exact GpoolProofs.queue_bounded. Qed.
 
-(* progress. Full statement (NOT proved): a pending job can always be brought to completion by steps of the pool and of jobs. *)
-Definition C19_progress_statement : Prop := forall W Q s j, 1 <= W -> reachable W Q s -> rp s = RNot ->
-  In j (jobq s ++ held (dp s)) ->
-  exists ls s', Forall (fun l => internal l = true) ls /\ run W Q s ls = Some s' /\ In j (fin s').
-(* proved part: no deadlock — with a pending job before Release, or with a Release in progress, a step of the pool itself or of
-   a running job (jobs terminate) is always enabled *)
-Theorem C19_progress_partial : forall W Q s, 1 <= W -> reachable W Q s ->
+(* ---------- progress ("every job submitted is executed", "Release ... returns") ---------- *)
+(* no deadlock: with a pending job before Release, or with a Release in progress, a step of the pool itself or of a running job
+   (jobs terminate) is always enabled *)
+Theorem C19_no_deadlock : forall W Q s, 1 <= W -> reachable W Q s ->
   ((rp s = RNot \/ rp s = RCalled) /\ (jobq s <> [] \/ held (dp s) <> []) \/ rp s = RCalled \/ rp s = RSent \/ rp s = RAcked) ->
   exists l s', internal l = true /\ step W Q s l = Some s'.
 Proof. exact GpoolProofs.no_deadlock. Qed.
+(* no livelock: in EVERY execution the number of steps of the pool, of jobs and of Release is bounded by the work present at its
+   start ([measure]: 8 per queued job, ...) plus 8 per completed submit — from any state, reachable or not *)
+Theorem C19_work_bounded : forall W Q ls s s', run W Q s ls = Some s' ->
+  ninternal ls + measure s' <= measure s + 8 * nsubmit ls.
+Proof. exact GpoolLive.work_bounded. Qed.
+(* every job sent into a pool on which Release has not been called can be brought to completion by steps of the pool and of jobs *)
+Theorem C19_progress : forall W Q s j, 1 <= W -> reachable W Q s -> rp s = RNot -> In j (subm s) ->
+  exists ls s', Forall (fun l => internal l = true) ls /\ run W Q s ls = Some s' /\ In j (fin s').
+Proof. exact GpoolLive.progress. Qed.
+(* ... and no schedule avoids it: every run of pool/job steps from such a state has at most [measure s] steps, and when it cannot be
+   extended every job sent has finished, the queue is empty, no worker is occupied and all W workers are registered again *)
+Theorem C19_every_schedule_completes : forall W Q s ls s', 1 <= W -> reachable W Q s -> rp s = RNot ->
+  Forall (fun l => internal l = true) ls -> run W Q s ls = Some s' ->
+  length ls <= measure s /\
+  (quiescent W Q s' -> Permutation (subm s) (fin s') /\ jobq s' = [] /\ occupying (wk s') = [] /\ length (wq s') = W).
+Proof. exact GpoolLive.every_schedule_completes. Qed.
+(* a blocked submitter: the pool makes room for its send by its own steps (for Q = 0: the dispatcher comes back to its select) *)
+Theorem C19_blocked_submit_gets_room : forall W Q s j, 1 <= W -> reachable W Q s -> rp s = RNot -> In j (calling s) ->
+  exists ls s', Forall (fun l => internal l = true) ls /\ run W Q s ls = Some s' /\
+    exists s'', step W Q s' (if Q =? 0 then SubmitH j else Submit j) = Some s''.
+Proof. exact GpoolLive.blocked_submit_gets_room. Qed.
+(* Release returns: once called it can be brought to its return; every run of pool/job steps is bounded and can only stop returned *)
+Theorem C19_release_returns : forall W Q s, 1 <= W -> reachable W Q s -> rp s <> RNot ->
+  (exists ls s', Forall (fun l => internal l = true) ls /\ run W Q s ls = Some s' /\ rp s' = RDone) /\
+  (forall ls s', Forall (fun l => internal l = true) ls -> run W Q s ls = Some s' ->
+     length ls <= measure s /\ (quiescent W Q s' -> rp s' = RDone)).
+Proof. exact GpoolLive.release_returns. Qed.
+
+(* one job while other submitters keep sending (the pool never becomes quiescent): the premises of the weak-fairness rule for
+   "every submitted job is eventually run", for the rank [mu j] (position in the FIFO queue, then the job's own three steps).
+   Full statement over infinite fair executions: NOT formalised (the model has finite executions only). *)
+Theorem C19_rank_zero_iff_finished : forall s j, mu j s = 0 <-> In j (fin s).
+Proof. exact GpoolFair.mu_zero_iff. Qed.
+(* (a) before the dispatcher accepts Release, no step of anybody — in particular no later submit — moves j away from completion *)
+Theorem C19_rank_nonincreasing : forall W Q s l s' j, reachable W Q s -> pre_release (dp s) = true -> In j (subm s) -> l <> RelCall ->
+  step W Q s l = Some s' -> mu j s' <= mu j s.
+Proof. exact GpoolFair.mu_nonincreasing. Qed.
+(* (b) while j has not finished, a step of the pool or of a running job that brings it strictly closer is enabled *)
+Theorem C19_helpful_step_enabled : forall W Q s j, 1 <= W -> reachable W Q s -> pre_release (dp s) = true -> In j (subm s) ->
+  ~ In j (fin s) -> exists l s', internal l = true /\ l <> RelCall /\ step W Q s l = Some s' /\ mu j s' < mu j s.
+Proof. exact GpoolFair.helpful_step_enabled. Qed.
+(* (c) an enabled step of the pool or of a running job stays enabled until it is taken (weak fairness suffices) *)
+Theorem C19_enabled_step_persists : forall W Q s l l' s', pre_release (dp s) = true -> internal l = true -> l <> RelCall ->
+  step W Q s l <> None -> step W Q s l' = Some s' -> l' <> l -> l' <> RelCall -> step W Q s' l <> None.
+Proof. exact GpoolFair.enabled_step_persists. Qed.
+(* finite consequence: an execution (any submits interleaved, no Release accepted) that contains [mu j s] helpful steps has finished j *)
+Theorem C19_helpful_steps_finish : forall W Q ls s s' j, reachable W Q s -> pre_release (dp s) = true -> In j (subm s) ->
+  ~ In RelCall ls -> run W Q s ls = Some s' ->
+  helpful W Q j s ls + mu j s' <= mu j s /\ (mu j s <= helpful W Q j s ls -> In j (fin s')).
+Proof. exact GpoolFair.helpful_steps_finish. Qed.
 
 (* Release: when it has returned every worker has stopped, no job occupies a worker ... *)
 Theorem C19_release : forall W Q s, reachable W Q s -> (rp s = RDone \/ rp s = RAcked) ->
@@ -85,7 +132,17 @@ Print Assumptions C19_parallelism.
 Print Assumptions C19_submit_blocks_only_when_full.
 Print Assumptions C19_submit_only_into_room.
 Print Assumptions C19_queue_bounded.
-Print Assumptions C19_progress_partial.
+Print Assumptions C19_no_deadlock.
+Print Assumptions C19_work_bounded.
+Print Assumptions C19_progress.
+Print Assumptions C19_every_schedule_completes.
+Print Assumptions C19_blocked_submit_gets_room.
+Print Assumptions C19_release_returns.
+Print Assumptions C19_rank_zero_iff_finished.
+Print Assumptions C19_rank_nonincreasing.
+Print Assumptions C19_helpful_step_enabled.
+Print Assumptions C19_enabled_step_persists.
+Print Assumptions C19_helpful_steps_finish.
 Print Assumptions C19_release.
 Print Assumptions C19_release_not_while_running.
 Print Assumptions C19_nothing_starts_after_release.
